@@ -19,6 +19,11 @@ TEXT = {
   technique='property-based testing with the reference implementation as oracle: generated Create parameter sets x histories; e2fsck -f -n after Create and after every step, debugfs rdump at the end compared with the model',
   level_text='Generated search; the verdict on every step comes from e2fsprogs, an independent implementation. Exploration.',
   level_note='Trusts e2fsprogs 1.47.0 as installed in the sandbox.'),
+ 'C06': dict(
+  design_ref='DESIGN.md §4 C06',
+  technique='property-based testing: generated workspace trees x {plain, RockRidge, Joliet, both} x start offset finalized through the library, then read back with the library reader (exact names / level-1 mapping, contents, link targets) and with an independent PVD/directory-record walker (extents inside the image, no overlap, same contents)',
+  level_text='Generated search with a round-trip oracle and an independent on-disk parser. Exploration.',
+  level_note='Trusts the harness ISO9660 walker (ECMA-119 layout) and the level-1 name rule stated in the harness.'),
  'C08': dict(
   design_ref='DESIGN.md §4 C08',
   technique='property-based testing with an independent oracle: the C01 history generator drives the library while a harness-side FAT parser (BPB, both FATs, FSInfo, backup boot sector, directory walk, cluster ownership map) re-checks the raw bytes after every step',
